@@ -4,6 +4,5 @@ CONSTANTS
     K = 1
 INVARIANT ExactLU
 INVARIANT NonSingular
-INVARIANT Accepts
 INVARIANT Replay
 CHECK_DEADLOCK FALSE
